@@ -38,14 +38,14 @@ func c26(c *Ctx) {
 		}
 	}
 	// small graphs with permuted adjacency / duplicates (order matters for Tarjan and LongestPath)
-	for i, n := 0, c.N(300, 20000); i < n; i++ {
+	for i, n := 0, c.N(300, 40000); i < n; i++ {
 		nv := 2 + c.Rng.Intn(3)
 		g := randGraph(c.Rng, nv, 0.2+0.6*c.Rng.Float64(), true)
 		mess(c.Rng, g, true)
 		c26graph(c, g, "small shuffled+dups")
 	}
 	// random part
-	for i, n := 0, c.N(400, 6000); i < n; i++ {
+	for i, n := 0, c.N(400, 12000); i < n; i++ {
 		nv := 2 + c.Rng.Intn(39)
 		if c.Rng.Intn(3) == 0 {
 			nv = 2 + c.Rng.Intn(9)
@@ -205,7 +205,13 @@ func c26graph(c *Ctx, g [][]int, bucket string) {
 	c.Count(bucket)
 
 	// Transpose
-	c.Case("transpose "+gs, guarded(func() string { return intss(graph.Transpose(cloneGraph(g))) }), key("transpose"))
+	c.Case("transpose "+gs, guarded(func() string {
+		tr := graph.Transpose(cloneGraph(g))
+		if why := transposeOracle(g, tr); wf && why != "" {
+			c.Violate("Transpose: "+why, "transpose "+gs)
+		}
+		return intss(tr)
+	}), key("transpose"))
 
 	// Matrix closure (only well-formed graphs: AddEdge(i, e) with e >= n aliases another cell)
 	if wf {
@@ -229,6 +235,19 @@ func c26graph(c *Ctx, g [][]int, bucket string) {
 			if n > 0 {
 				gr = intss(m.Graph(nil))
 			}
+			reach := reachMatrix(g)
+			for i := 0; i < n; i++ {
+				for e := 0; e < n; e++ {
+					want := false
+					for _, w := range g[i] {
+						want = want || reach[w][e]
+					}
+					if want != m.HasEdge(i, e) {
+						c.Violate(fmt.Sprintf("Closure: HasEdge(%d,%d)=%v but a non-empty path exists=%v", i, e, m.HasEdge(i, e), want), "closure "+gs)
+						i, e = n, n
+					}
+				}
+			}
 			return intss(adj) + " " + gr
 		}), key("closure"))
 	}
@@ -236,6 +255,11 @@ func c26graph(c *Ctx, g [][]int, bucket string) {
 	// LongestPath
 	c.Case("lpath "+gs, guarded(func() string {
 		p := graph.LongestPath(cloneGraph(g))
+		if wf {
+			if why := pathOracle(g, p); why != "" {
+				c.Violate("LongestPath: "+why, "lpath "+gs)
+			}
+		}
 		if p == nil {
 			return "nil"
 		}
@@ -267,9 +291,92 @@ func c26graph(c *Ctx, g [][]int, bucket string) {
 	}
 }
 
-// sccOracle is an independent brute-force check (search oracle only; the verdict that counts is the
-// Lean validator's): reachability by DFS from every vertex.
-func sccOracle(g [][]int, comps [][]int) string {
+// transposeOracle: edge multiset of tr is the reversed edge multiset of g.
+func transposeOracle(g, tr [][]int) string {
+	if len(tr) != len(g) {
+		return "vertex count changed"
+	}
+	cnt := map[[2]int]int{}
+	for v, r := range g {
+		for _, w := range r {
+			cnt[[2]int{w, v}]++
+		}
+	}
+	for u, r := range tr {
+		for _, v := range r {
+			cnt[[2]int{u, v}]--
+		}
+	}
+	for k, d := range cnt {
+		if d != 0 {
+			return fmt.Sprintf("edge %d->%d of the result has multiplicity off by %d", k[0], k[1], -d)
+		}
+	}
+	return ""
+}
+
+// pathOracle (well-formed graphs only; called before a possible panic would be observed): nil iff
+// cyclic (or no vertices), otherwise a path whose length is the maximum (memoised DFS on the DAG).
+func pathOracle(g [][]int, p []int) string {
+	n := len(g)
+	reach := reachMatrix(g)
+	cyclic := false
+	for v := 0; v < n; v++ {
+		for _, w := range g[v] {
+			if reach[w][v] {
+				cyclic = true
+			}
+		}
+	}
+	if cyclic {
+		if p != nil {
+			return "a path is returned for a cyclic graph"
+		}
+		return ""
+	}
+	if p == nil {
+		if n == 0 {
+			return ""
+		}
+		return "nil for an acyclic graph"
+	}
+	for i := 0; i+1 < len(p); i++ {
+		ok := false
+		for _, w := range g[p[i]] {
+			ok = ok || w == p[i+1]
+		}
+		if !ok {
+			return fmt.Sprintf("%d->%d is not an edge", p[i], p[i+1])
+		}
+	}
+	memo := make([]int, n)
+	var h func(v int) int
+	h = func(v int) int {
+		if memo[v] == 0 {
+			best := 1
+			for _, w := range g[v] {
+				if x := h(w) + 1; x > best {
+					best = x
+				}
+			}
+			memo[v] = best
+		}
+		return memo[v]
+	}
+	best := 0
+	for v := 0; v < n; v++ {
+		if x := h(v); x > best {
+			best = x
+		}
+	}
+	if len(p) != best {
+		return fmt.Sprintf("path has %d vertices, the maximum is %d", len(p), best)
+	}
+	return ""
+}
+
+// reachMatrix: reach[v][w] iff w is reachable from v by zero or more edges (DFS from every vertex).
+func reachMatrix(g [][]int) [][]bool {
 	n := len(g)
 	reach := make([][]bool, n)
 	for v := 0; v < n; v++ {
@@ -287,6 +394,14 @@ func sccOracle(g [][]int, comps [][]int) string {
 			}
 		}
 	}
+	return reach
+}
+
+// sccOracle is an independent brute-force check (search oracle only; the verdict that counts is the
+// Lean validator's).
+func sccOracle(g [][]int, comps [][]int) string {
+	n := len(g)
+	reach := reachMatrix(g)
 	comp := make([]int, n)
 	for i := range comp {
 		comp[i] = -1
